@@ -44,9 +44,9 @@ Lemma arg_match {T} (r1 : list tok) (A : str -> list tok -> T) (B : T) :
 Proof. intros H. destruct r1 as [|[] [|[| | | |[]] ?]]; cbn in H; try discriminate; reflexivity. Qed.
 
 (* ---- call arguments ---- *)
-Lemma kw_loop r : forall kw2 rc kw0 args0,
+Lemma kw_loop r lp : forall kw2 rc kw0 args0,
   (forall p, In p kw2 -> GOOD (snd p)) ->
-  parses (fun K => p_args_loop K args0 kw0 rc) (sepc rc (map kwp kw2) ++ KOp ORParen :: r) (args0, kw0 ++ kw2) r.
+  parses (fun K => p_args_loop K lp args0 kw0 rc) (sepc rc (map kwp kw2) ++ KOp ORParen :: r) (args0, kw0 ++ kw2) r.
 Proof.
   induction kw2 as [|[k v] kw2 IH]; intros rc kw0 args0 Hg.
   - rewrite app_nil_r. apply parses_ret. intros K. rewrite step_p_args_loop. reflexivity.
@@ -55,24 +55,24 @@ Proof.
     set (rest := sepc true (map kwp kw2) ++ KOp ORParen :: r).
     assert (Hrest : nc 0 rest = true) by (unfold rest; rewrite <- sepc_true; apply nc0_flat; auto).
     destruct rc; cbn [app]; rewrite <- ?app_assoc; cbn [app]; fold rest.
-    + eapply (parses_bind _ p_cond (fun K x y => p_args_loop K args0 (kw0 ++ [(k, x)]) true y) _ (pr 0 v ++ rest)).
+    + eapply (parses_bind _ p_cond (fun K x y => p_args_loop K lp args0 (kw0 ++ [(k, x)]) true y) _ (pr 0 v ++ rest)).
       * intros K. rewrite step_p_args_loop. reflexivity.
       * apply Pv. exact Hrest.
       * replace (kw0 ++ (k, v) :: kw2) with ((kw0 ++ [(k, v)]) ++ kw2) by (rewrite <- app_assoc; reflexivity).
         unfold rest. apply IH. intros p Hp. apply Hg. right. exact Hp.
-    + eapply (parses_bind _ p_cond (fun K x y => p_args_loop K args0 (kw0 ++ [(k, x)]) true y) _ (pr 0 v ++ rest)).
+    + eapply (parses_bind _ p_cond (fun K x y => p_args_loop K lp args0 (kw0 ++ [(k, x)]) true y) _ (pr 0 v ++ rest)).
       * intros K. rewrite step_p_args_loop. reflexivity.
       * apply Pv. exact Hrest.
       * replace (kw0 ++ (k, v) :: kw2) with ((kw0 ++ [(k, v)]) ++ kw2) by (rewrite <- app_assoc; reflexivity).
         unfold rest. apply IH. intros p Hp. apply Hg. right. exact Hp.
 Qed.
 
-Lemma pos_loop r kw2 : (forall p, In p kw2 -> GOOD (snd p)) -> forall xs2 rc args0,
+Lemma pos_loop r lp kw2 : (forall p, In p kw2 -> GOOD (snd p)) -> forall xs2 rc args0,
   (forall x, In x xs2 -> GOOD x) ->
-  parses (fun K => p_args_loop K args0 [] rc) (sepc rc (map (pr 0) xs2 ++ map kwp kw2) ++ KOp ORParen :: r) (args0 ++ xs2, kw2) r.
+  parses (fun K => p_args_loop K lp args0 [] rc) (sepc rc (map (pr 0) xs2 ++ map kwp kw2) ++ KOp ORParen :: r) (args0 ++ xs2, kw2) r.
 Proof.
   intros Hkw. induction xs2 as [|x xs2 IH]; intros rc args0 Hg.
-  - rewrite app_nil_r. cbn [map app]. apply (kw_loop r kw2 rc [] args0 Hkw).
+  - rewrite app_nil_r. cbn [map app]. apply (kw_loop r lp kw2 rc [] args0 Hkw).
   - destruct (Hg x (or_introl eq_refl)) as [Px [Hx Nx]].
     cbn [map app sepc]. rewrite sepc_true.
     set (rest := sepc true (map (pr 0) xs2 ++ map kwp kw2) ++ KOp ORParen :: r).
@@ -80,7 +80,7 @@ Proof.
     assert (Hna : no_assign2 (pr 0 x ++ rest) = true).
     { apply Nx. unfold rest. rewrite <- sepc_true. destruct (noassign_flat (map (pr 0) xs2 ++ map kwp kw2) ORParen r) as [H|H]; [exact H|discriminate]. }
     specialize (Hx rest).
-    eapply (parses_bind _ p_cond (fun K v y => p_args_loop K (args0 ++ [v]) [] true y) _ (pr 0 x ++ rest)).
+    eapply (parses_bind _ p_cond (fun K v y => p_args_loop K lp (args0 ++ [v]) [] true y) _ (pr 0 x ++ rest)).
     + intros K. rewrite step_p_args_loop.
       destruct rc; cbn [app]; rewrite <- ?app_assoc; fold rest.
       * cbn [is_op expect bindp tl]. rewrite (hd_rparen _ Hx), (hd_mul _ Hx), (hd_pow _ Hx). cbn [andb orb].
@@ -97,8 +97,8 @@ Lemma call_args_ok xs kw r :
   parses p_call_args (KOp OLParen :: commas (map (pr 0) xs ++ map kwp kw) ++ KOp ORParen :: r) (xs, kw) r.
 Proof.
   intros Hx Hk. rewrite commas_sepc.
-  eapply (parses_step _ (fun K => p_args_loop K [] [] false) _ (sepc false (map (pr 0) xs ++ map kwp kw) ++ KOp ORParen :: r)); [intros K; rewrite step_p_call_args; reflexivity|].
-  apply (pos_loop r kw Hk xs false [] Hx).
+  eapply (parses_step _ (fun K => p_args_loop K (KOp OLParen :: sepc false (map (pr 0) xs ++ map kwp kw) ++ KOp ORParen :: r) [] [] false) _ (sepc false (map (pr 0) xs ++ map kwp kw) ++ KOp ORParen :: r)); [intros K; rewrite step_p_call_args; reflexivity|].
+  apply (pos_loop r _ kw Hk xs false [] Hx).
 Qed.
 
 (* ---- list and dict literals ---- *)
